@@ -369,6 +369,12 @@ func (runInfo *runInfoStruct) invokeMemberExpr(expr *ast.MemberExpr) {
 	case reflect.Struct:
 		field, found := runInfo.rv.Type().FieldByName(expr.Name)
 		if found {
+			if field.PkgPath != "" {
+				// an unexported field cannot be handed out: Interface() on it panics
+				runInfo.err = newStringError(expr, "no member named '"+expr.Name+"' for struct")
+				runInfo.rv = nilValue
+				return
+			}
 			runInfo.rv = runInfo.rv.FieldByIndex(field.Index)
 			return
 		}
